@@ -53,6 +53,11 @@ reg('C02', 'exhaustive enumeration of shape × placement × N × width × number
     'expanded and compared by exact string equality with the reference; Hypothesis scripts put counters into every value position below groups nested ≤ 3 with N ≤ 12, with and without maxRepeat.',
     '`*0`, maxRepeat=0, `$@^` and reverse numbering under a truncating maxRepeat are outside the statement and not generated; names that are snippet keys are skipped.')
 
+reg('C03', 'exhaustive mention-sequence enumeration + Hypothesis elements/option sets; differential against a reference attribute-merge/quoting model',
+    'Every sequence of ≤ 3 (quick) / ≤ 4 (thorough) mentions over a 12-mention pool × reverseAttributes on/off is expanded and compared exactly with the reference model of the statement; '
+    'Hypothesis draws 0–6 mentions per element with replacement from a 6-name pool in every written form, over syntaxes html/xml/jsx/vue and the attribute-related output options.',
+    'Mixing {expression} and non-expression values for one name, `$`/`\\`/`${` in values and the `..class` multiple form are outside the generated domain.')
+
 NOT_APPLICABLE = [
 ]
 
